@@ -10,19 +10,26 @@
 (*             hyper-parameter overwritten by fit (WriteBack = TRUE)                 *)
 (*   mem     : digest of every caller-owned array (never changes)                    *)
 EXTENDS Integers, Sequences, TLC
-CONSTANTS Stale, WriteBack, InPlace
+CONSTANTS Stale, WriteBack, InPlace, StaleCache   \* StaleCache: a lazily filled cache (inverse bandwidths, ...) is not reset by fit
 Data == {"A", "B"}
-VARIABLES learnedX, learnedY, param, mem, calls
-vars == <<learnedX, learnedY, param, mem, calls>>
-Init == learnedX = "none" /\ learnedY = "none" /\ param = "default" /\ mem = [d \in Data |-> "clean"] /\ calls = 0
+VARIABLES learnedX, learnedY, param, mem, calls, cache, lastOut
+vars == <<learnedX, learnedY, param, mem, calls, cache, lastOut>>
+Init == learnedX = "none" /\ learnedY = "none" /\ param = "default" /\ mem = [d \in Data |-> "clean"] /\ calls = 0 /\ cache = "empty" /\ lastOut = "none"
 \* fit(d, withy): a correct fit overwrites every learned attribute
-Fit(d, wy) == /\ calls < 3
+Fit(d, wy) == /\ calls < 4
               /\ learnedX' = d
               /\ learnedY' = IF wy THEN d ELSE IF Stale THEN learnedY ELSE "none"
               /\ param' = IF WriteBack THEN "calibrated" ELSE param
               /\ mem' = IF InPlace THEN [mem EXCEPT ![d] = "scaled"] ELSE mem
               /\ calls' = calls + 1
-Next == \E d \in Data, wy \in BOOLEAN : Fit(d, wy)
+              /\ cache' = IF StaleCache THEN cache ELSE "empty"
+              /\ lastOut' = "none"
+\* a follow-up call (score / predict / transform) fills a cache from the learned state on first use and answers from it
+Use == /\ learnedX # "none" /\ calls < 4
+       /\ cache' = IF cache = "empty" THEN learnedX ELSE cache
+       /\ lastOut' = IF cache = "empty" THEN learnedX ELSE cache
+       /\ calls' = calls + 1 /\ UNCHANGED <<learnedX, learnedY, param, mem>>
+Next == (\E d \in Data, wy \in BOOLEAN : Fit(d, wy)) \/ Use
 Spec == Init /\ [][Next]_vars
 \* the state of a fresh estimator fitted on (d, wy)
 Fresh(d, wy) == <<d, IF wy THEN d ELSE "none">>
@@ -30,4 +37,6 @@ Fresh(d, wy) == <<d, IF wy THEN d ELSE "none">>
 RefitIsFresh == [][\A d \in Data, wy \in BOOLEAN : Fit(d, wy) => <<learnedX', learnedY'>> = Fresh(d, wy)]_vars
 ParamsUnchanged == param = "default"
 MemUnchanged == \A d \in Data : mem[d] = "clean"
+\* a follow-up call answers from the CURRENT fit, whatever was computed before the refit
+OutputIsCurrent == lastOut # "none" => lastOut = learnedX
 ==============================================================================
